@@ -17,6 +17,7 @@ import Proofs.Structure
 import Proofs.RangeOps
 import Proofs.ReplaceRange
 import Proofs.IsoFlows
+import Proofs.TypePlan
 import Props.C09
 namespace PM.C18
 open PM
@@ -916,6 +917,70 @@ theorem split_of_position_inside (S : Schema) (doc doc' : Node) (pos depth : Nat
     rw [hbp, hos] at *
     omega
   · rw [sliceToks_balance sl hwf, hos, hoe]; omega
+
+/-! ## Node-level edits addressed at a node inside: `set_node_markup` (model PM/TypePlan.lean) -/
+
+/-- a node created by `NodeType.create(attrs, None, marks)` has at least one token -/
+theorem createNode_size_pos (S : Schema) (ty : TypeId) (attrs : Attrs) (marks : Marks) (nn : Node)
+    (h : S.createNode ty attrs marks = .ok nn) : 1 ≤ nn.size := by
+  unfold Schema.createNode at h
+  simp only at h
+  split at h
+  · simp at h
+  · cases hc : computeAttrs (S.nodeType ty).attrs attrs with
+    | error e => rw [hc] at h; simp [Except.map] at h
+    | ok a =>
+      rw [hc] at h
+      simp only [Except.map, Except.ok.injEq] at h
+      subst h
+      split <;> simp [Node.size]
+
+/-- **`set_node_markup` at a node inside**: the node found at `pos` lies strictly between the open
+    token (at `a`) and the close token (at `b − 1`) of a node occupying `[a, b)`.  Whatever new type,
+    attributes and marks are requested, if the operation succeeds (without the Fitter: `fits = []`,
+    as in `setNodeMarkup_spec`, Props/C13.lean) every token up to and including the open token at `a`
+    and from the close token at `b − 1` on is unchanged. -/
+theorem setNodeMarkup_inside (S : Schema) (st st' : PSt) (pos : Nat) (ty : Option TypeId)
+    (attrs : Attrs) (marks : Option Marks) (a b : Nat) (hb : b ≤ fsize st.tr.doc.kids)
+    (node : Node) (hn : st.tr.doc.nodeAt pos = .ok (some node))
+    (ha : a < pos) (hpb : pos + node.size < b) (hfit : st.fits = [])
+    (h : st.setNodeMarkup S pos ty attrs marks = .ok st') :
+    (ftoks st'.tr.doc.kids).take (a + 1) = (ftoks st.tr.doc.kids).take (a + 1) ∧
+    (ftoks st'.tr.doc.kids).drop (b - 1 + fsize st'.tr.doc.kids - fsize st.tr.doc.kids) =
+      (ftoks st.tr.doc.kids).drop (b - 1) ∧
+    fsize st.tr.doc.kids ≤ b - 1 + fsize st'.tr.doc.kids := by
+  unfold PSt.setNodeMarkup at h
+  rw [hn] at h
+  simp only at h
+  split at h
+  · simp at h
+  · rename_i newNode hcreate
+    have hsz := createNode_size_pos S _ _ _ newNode hcreate
+    split at h
+    · -- leaf: a plain replace of the node's window
+      rcases PSt.replace_nofit S st st' _ _ _ hfit h with ⟨rfl, _, _⟩ | ⟨_, hstep⟩
+      · exact ⟨rfl, by rw [Nat.add_sub_cancel], by omega⟩
+      · obtain ⟨hap, _⟩ := PSt.step_facts S st st' _ hstep
+        exact inside_preserves_outside S _ _ a b _ hb
+          (by simp only [insideNode, Bool.and_eq_true, decide_eq_true_eq]; omega)
+          (fun f t gf gt sl i c e => by simp at e) hap
+    · rename_i hnl
+      split at h
+      · simp at h
+      · obtain ⟨hap, _⟩ := PSt.step_facts S st st' _ h
+        have hns : 2 ≤ node.size := by
+          cases node with
+          | elem t at_ m kids => simp [Node.size]
+          | text => simp [Node.isLeaf] at hnl
+          | leaf => simp [Node.isLeaf] at hnl
+        refine inside_preserves_outside S _ _ a b _ hb
+          (by simp only [retypeStep, insideNode, Bool.and_eq_true, decide_eq_true_eq]; omega) ?_ hap
+        intro f t gf gt sl i c e
+        simp only [retypeStep, Step.replaceAround.injEq] at e
+        obtain ⟨rfl, rfl, rfl, rfl, rfl, rfl, _⟩ := e
+        refine ⟨by simp [Slice.wf], ?_, by omega, by omega, by omega⟩
+        simp only [Slice.size, fsize]
+        omega
 
 /-! ### concrete instances: an isolating node inside a blockquote (the shape of the seeded `block_range` change)
 
